@@ -2,11 +2,10 @@ module verifharness
 
 go 1.23
 
-require github.com/elastic/go-ucfg v0.0.0
-
 require (
-	gopkg.in/hjson/hjson-go.v3 v3.0.1 // indirect
-	gopkg.in/yaml.v2 v2.2.8 // indirect
+	github.com/elastic/go-ucfg v0.0.0
+	gopkg.in/hjson/hjson-go.v3 v3.0.1
+	gopkg.in/yaml.v2 v2.2.8
 )
 
 replace github.com/elastic/go-ucfg => /repo
